@@ -54,6 +54,8 @@ type Request struct {
 	// PreserveExpiry reports the preserve-expiry frame; DurabilityLevel the sync-durability frame.
 	PreserveExpiry  bool
 	DurabilityLevel memd.DurabilityLevel
+
+	stream *StreamRequest // the stream log record of a STREAM_REQ
 }
 
 // DcpControl is one DCP_CONTROL key/value pair received on a DCP connection.
@@ -148,8 +150,9 @@ func (n *Node) SetBehaviour(opcode memd.CmdCode, b *Behaviour) {
 // SetBehaviourFunc installs a function consulted for every request before the per-opcode table;
 // it can key on anything in the decoded request (vbucket, key, collection, connection, DCP control
 // key ...). Returning nil falls through to the SetBehaviour table. f runs on the connection's
-// reader goroutine and must not call back into the Node in a blocking way (it may call the
-// non-blocking accessors). nil removes the function.
+// reader goroutine, so it should be quick; it may call any Node method. To use Times with a
+// behaviour handed out by f, return the same *Behaviour value every time (the countdown lives in
+// it). nil removes the function.
 func (n *Node) SetBehaviourFunc(f func(req *Request) *Behaviour) {
 	n.mu.Lock()
 	defer n.mu.Unlock()
@@ -261,12 +264,21 @@ func (c *conn) close() {
 	})
 }
 
+// write sends one packet. A failed or timed out write leaves the byte stream undefined, so the
+// connection is dropped then.
 func (c *conn) write(pkt *memd.Packet) error {
 	c.wmu.Lock()
-	defer c.wmu.Unlock()
-	_ = c.nc.SetWriteDeadline(time.Now().Add(10 * time.Second))
-	return c.wr.WritePacket(pkt)
+	_ = c.nc.SetWriteDeadline(time.Now().Add(writeTimeout))
+	err := c.wr.WritePacket(pkt)
+	c.wmu.Unlock()
+	if err != nil {
+		c.close()
+	}
+	return err
 }
+
+// writeTimeout bounds one packet write; it only matters when a client stops reading its socket.
+const writeTimeout = 10 * time.Second
 
 // reply sends a response for pkt.
 func (c *conn) reply(pkt *memd.Packet, status memd.StatusCode, cas uint64, extras, value []byte) {
@@ -390,6 +402,9 @@ func (c *conn) dispatch(pkt *memd.Packet) {
 	if pkt.Command != memd.CmdGetClusterConfig || n.cfg.LogConfigPolls {
 		n.reqLog = append(n.reqLog, *req)
 	}
+	if pkt.Command == memd.CmdDcpStreamReq {
+		req.stream = c.recordStreamReq(pkt, req)
+	}
 	if pkt.Command == memd.CmdDcpControl {
 		n.controls = append(n.controls, DcpControl{ConnID: c.id, ConnName: c.name, Key: string(pkt.Key), Value: string(pkt.Value)})
 	}
@@ -412,6 +427,11 @@ func (c *conn) dispatch(pkt *memd.Packet) {
 
 	switch b.Kind {
 	case KindErrorStatus:
+		if req.stream != nil {
+			n.mu.Lock()
+			req.stream.Reply = StreamReply{Kind: StreamError, Status: b.Status}
+			n.mu.Unlock()
+		}
 		c.reply(pkt, b.Status, 0, nil, b.Body)
 	case KindNever:
 	case KindDropConnection:
